@@ -65,10 +65,40 @@ func c13Pick(rt *rapid.T, l string, good, bad []string, badPct int) string {
 	return good[lang.Spread(rt, l+"g", len(good))]
 }
 
+// c13Composed builds a hostile identifier around the shapes a query builder is
+// tempted to let through (stars, qualified names, aliases, calls, quoting),
+// so that a pass-through keyed on a prefix or suffix is reached.
+var c13Payloads = []string{"(SELECT group_concat(v) FROM zz_sentinel) AS leaked", "1; DELETE FROM zz_sentinel; SELECT 1", "zz_sentinel", "1=1 OR x", "name FROM zz_sentinel --"}
+var c13Shapes = []string{".*", "*", ", t1.*", ".", ".id", " AS x", "()", "(*)", "COUNT(*)", ", *", "\"", "`", "[", "]", " ", "\t", "--", "/*", ";", ",", "::text", "\x00", "%", "$1", "?"}
+
+func c13Composed(rt *rapid.T, l string) string {
+	base := func(k string) string {
+		if lang.Spread(rt, l+k+"p", 2) == 0 {
+			return c13Payloads[lang.Spread(rt, l+k+"pi", len(c13Payloads))]
+		}
+		return c13GoodIdents[lang.Spread(rt, l+k+"gi", len(c13GoodIdents))]
+	}
+	shape := c13Shapes[lang.Spread(rt, l+"shape", len(c13Shapes))]
+	switch lang.Spread(rt, l+"form", 4) {
+	case 0:
+		return base("a") + shape
+	case 1:
+		return shape + base("a")
+	case 2:
+		return base("a") + shape + base("b")
+	}
+	return base("a") + ", " + base("b") + shape
+}
+
 func genC13(rt *rapid.T) c13Case {
 	ops := []string{"qb", "qb", "qb", "create", "update", "delete", "count", "findbyid", "bulk", "bulk", "createtable", "createtable", "droptable", "tableexists", "lastid", "sanitize"}
 	c := c13Case{Op: ops[lang.Spread(rt, "op", len(ops))], Dialect: []string{"sqlite", "sqlite", "postgres", "mysql"}[lang.Spread(rt, "dialect", 4)]}
-	ident := func(l string) string { return c13Pick(rt, l, c13GoodIdents, c13BadIdents, 12) }
+	ident := func(l string) string {
+		if lang.Spread(rt, l+"composed", 100) < 6 {
+			return c13Composed(rt, l)
+		}
+		return c13Pick(rt, l, c13GoodIdents, c13BadIdents, 12)
+	}
 	val := func() string { return c13Values[lang.Spread(rt, "val", len(c13Values))] }
 	c.Table = ident("table")
 	if lang.Spread(rt, "t1", 100) < 45 {
